@@ -967,3 +967,169 @@ pub fn reinterpret_signed<Z: ZNum>(c: &Ctx<Z>) -> Expect<Z> {
 pub fn reinterpret_unsigned<Z: ZNum>(c: &Ctx<Z>) -> Expect<Z> {
     is(Obs::V(c.as_unsigned(0)))
 }
+
+/// differential operations report B(true) when both forms agree
+pub fn always_true<Z: ZNum>(_c: &Ctx<Z>) -> Expect<Z> {
+    is(Obs::B(true))
+}
+
+// =============================== C18: num_traits / num_integer =============================
+fn zgcd<Z: ZNum>(a: &Z, b: &Z) -> Z {
+    let (mut x, mut y) = (a.zabs(), b.zabs());
+    while !y.is_zero() {
+        let r = x.divrem_trunc(&y).1;
+        x = y;
+        y = r;
+    }
+    x
+}
+fn fits_or_unspec<Z: ZNum>(c: &Ctx<Z>, z: Z) -> Expect<Z> {
+    if c.ti.fits(&z) {
+        is(Obs::V(z))
+    } else {
+        Expect::Unspec
+    }
+}
+/// Integer::div_floor: rounds toward negative infinity
+pub fn nt_div_floor<Z: ZNum>(c: &Ctx<Z>) -> Expect<Z> {
+    if c.b().is_zero() {
+        return is(Obs::Panic);
+    }
+    if c.div_overflows() {
+        return Expect::Unspec;
+    }
+    is(Obs::V(quot(c, DivKind::Floor)))
+}
+/// Integer::mod_floor: remainder with the sign of the divisor
+pub fn nt_mod_floor<Z: ZNum>(c: &Ctx<Z>) -> Expect<Z> {
+    if c.b().is_zero() {
+        return is(Obs::Panic);
+    }
+    if c.div_overflows() {
+        return Expect::Unspec;
+    }
+    is(Obs::V(remd(c, DivKind::Floor)))
+}
+/// Integer::div_rem: truncated
+pub fn nt_div_rem<Z: ZNum>(c: &Ctx<Z>) -> Expect<Z> {
+    if c.b().is_zero() {
+        return is(Obs::Panic);
+    }
+    if c.div_overflows() {
+        return Expect::Unspec;
+    }
+    is(Obs::P(quot(c, DivKind::Trunc), remd(c, DivKind::Trunc)))
+}
+pub fn nt_div_mod_floor<Z: ZNum>(c: &Ctx<Z>) -> Expect<Z> {
+    if c.b().is_zero() {
+        return is(Obs::Panic);
+    }
+    if c.div_overflows() {
+        return Expect::Unspec;
+    }
+    is(Obs::P(quot(c, DivKind::Floor), remd(c, DivKind::Floor)))
+}
+pub fn nt_div_ceil<Z: ZNum>(c: &Ctx<Z>) -> Expect<Z> {
+    if c.b().is_zero() {
+        return is(Obs::Panic);
+    }
+    if c.div_overflows() {
+        return Expect::Unspec;
+    }
+    fits_or_unspec(c, quot(c, DivKind::Ceil))
+}
+/// non-negative greatest common divisor, when representable
+pub fn nt_gcd<Z: ZNum>(c: &Ctx<Z>) -> Expect<Z> {
+    fits_or_unspec(c, zgcd(c.a(), c.b()))
+}
+/// least common multiple (non-negative), when representable
+pub fn nt_lcm<Z: ZNum>(c: &Ctx<Z>) -> Expect<Z> {
+    if c.a().is_zero() || c.b().is_zero() {
+        return is(Obs::V(Z::zi(0)));
+    }
+    let g = zgcd(c.a(), c.b());
+    let l = c.a().zabs().divrem_trunc(&g).0.zmul(&c.b().zabs());
+    fits_or_unspec(c, l)
+}
+pub fn nt_is_even<Z: ZNum>(c: &Ctx<Z>) -> Expect<Z> {
+    is(Obs::B(c.a().is_even()))
+}
+pub fn nt_is_odd<Z: ZNum>(c: &Ctx<Z>) -> Expect<Z> {
+    is(Obs::B(!c.a().is_even()))
+}
+/// is_multiple_of / divides; a zero argument is not documented by the trait
+pub fn nt_is_multiple_of<Z: ZNum>(c: &Ctx<Z>) -> Expect<Z> {
+    if c.b().is_zero() || c.div_overflows() {
+        return Expect::Unspec;
+    }
+    is(Obs::B(remd(c, DivKind::Trunc).is_zero()))
+}
+/// provided next_multiple_of / prev_multiple_of: checked for a positive argument
+pub fn nt_next_multiple_of<Z: ZNum>(c: &Ctx<Z>) -> Expect<Z> {
+    if c.b().is_zero() || c.b().is_neg() {
+        return Expect::Unspec;
+    }
+    fits_or_unspec(c, quot(c, DivKind::Ceil).zmul(c.b()))
+}
+pub fn nt_prev_multiple_of<Z: ZNum>(c: &Ctx<Z>) -> Expect<Z> {
+    if c.b().is_zero() || c.b().is_neg() {
+        return Expect::Unspec;
+    }
+    fits_or_unspec(c, quot(c, DivKind::Floor).zmul(c.b()))
+}
+/// integer r of largest magnitude with |r^n| <= |x|, sign preserved for odd n; n = aux
+fn root<Z: ZNum>(c: &Ctx<Z>, n: u64) -> Expect<Z> {
+    if n == 0 {
+        return Expect::Unspec;
+    }
+    let a = c.a();
+    if a.is_neg() && n % 2 == 0 {
+        // even root of a negative number: not defined by the trait (it panics)
+        return Expect::Unspec;
+    }
+    let r = Z::from_big(&a.zabs().to_big().nth_root_floor(n));
+    is(Obs::V(if a.is_neg() { r.zneg() } else { r }))
+}
+pub fn nt_sqrt<Z: ZNum>(c: &Ctx<Z>) -> Expect<Z> {
+    root(c, 2)
+}
+pub fn nt_cbrt<Z: ZNum>(c: &Ctx<Z>) -> Expect<Z> {
+    root(c, 3)
+}
+pub fn nt_nth_root<Z: ZNum>(c: &Ctx<Z>) -> Expect<Z> {
+    root(c, c.aux)
+}
+/// Signed::abs (MIN is not defined by the trait), abs_sub, signum
+pub fn nt_abs<Z: ZNum>(c: &Ctx<Z>) -> Expect<Z> {
+    fits_or_unspec(c, c.a().zabs())
+}
+pub fn nt_abs_sub<Z: ZNum>(c: &Ctx<Z>) -> Expect<Z> {
+    if c.a() <= c.b() {
+        is(Obs::V(Z::zi(0)))
+    } else {
+        fits_or_unspec(c, c.a().zsub(c.b()))
+    }
+}
+/// PrimInt::signed_shr on any type: arithmetic shift of the pattern read as signed (n < BITS)
+pub fn nt_signed_shr<Z: ZNum>(c: &Ctx<Z>) -> Expect<Z> {
+    if c.aux >= c.bits() {
+        return Expect::Unspec;
+    }
+    let s = c.as_signed(0).zshr_floor(c.aux);
+    is(Obs::V(c.ti.wrap(&s.mod_pow2(c.bits()))))
+}
+/// PrimInt::unsigned_shr on any type: logical shift of the pattern (n < BITS)
+pub fn nt_unsigned_shr<Z: ZNum>(c: &Ctx<Z>) -> Expect<Z> {
+    if c.aux >= c.bits() {
+        return Expect::Unspec;
+    }
+    let s = c.pat(0).zshr_floor(c.aux);
+    is(Obs::V(c.ti.wrap(&s)))
+}
+/// PrimInt::signed_shl / unsigned_shl: the bits shift left (n < BITS)
+pub fn nt_shl<Z: ZNum>(c: &Ctx<Z>) -> Expect<Z> {
+    if c.aux >= c.bits() {
+        return Expect::Unspec;
+    }
+    is(Obs::V(x_shl(c, c.aux)))
+}
